@@ -6,7 +6,7 @@ func sortStrings(s []string) { sort.Strings(s) }
 
 func init() {
 	Props["C09"] = &PropSpec{Level: "other", Rules: []string{"R21", "R22"}, Explanation: "tbd"}
-	Props["C02"] = &PropSpec{Level: "other", Rules: []string{"R01"}, Explanation: "tbd"}
+	Props["C02"] = &PropSpec{Level: "other", Rules: []string{"R01", "R02", "R03", "R04"}, Explanation: "tbd"}
 	Props["C05"] = &PropSpec{Level: "other", Rules: []string{"R10"}, Explanation: "tbd"}
 	Props["C16"] = &PropSpec{Level: "other", Rules: []string{"R39", "R40"}, Explanation: "tbd"}
 	Props["C14"] = &PropSpec{Level: "other", Rules: []string{"R37", "R38"}, Explanation: "tbd"}
